@@ -8,10 +8,18 @@ sys.path.insert(0, HERE)
 
 PENDING = {}  # property id -> reason, for properties that are not claimed
 
+# Properties whose check has been validated by the coordinator on the unchanged tree (several seeds, both tiers).
+# A property module that exists but is not listed here is still under construction and is not claimed.
+READY_FILE = os.path.join(ROOT, "tools", "ready.txt")
+
 def main():
     ids = [json.loads(l)["id"] for l in open(os.path.join(ROOT, "properties.jsonl"))]
     checks, na = [], []
+    ready = set(open(READY_FILE).read().split()) if os.path.exists(READY_FILE) else None
     for pid in ids:
+        if ready is not None and pid not in ready:
+            na.append({"property_id": pid, "reason": PENDING.get(pid, "check under construction at this commit (plan: DESIGN.md section 7); nothing is claimed for this property yet")})
+            continue
         try:
             mod = importlib.import_module("props." + pid.lower())
             meta = mod.META
